@@ -6,6 +6,8 @@ import (
 	"go/token"
 	"go/types"
 	"sort"
+
+	"golang.org/x/tools/go/types/typeutil"
 )
 
 // execBlock executes statements; returns the normal-completion state (nil if unreachable).
@@ -390,6 +392,9 @@ func (f *Frame) storeIndex(st *State, base, i, v Val, n ast.Node) Val {
 	case *types.Array:
 		f.panicSite(st, "index", fmt.Sprintf("(and (<= 0 %s) (< %s %d))", i.T, i.T, u.Len()), n.Pos())
 		v = f.convertForAssign(st, v, u.Elem())
+		if _, ok := baLen(base.Ty); ok {
+			return f.fromArr(st, fmt.Sprintf("(store %s %s %s)", f.arrTerm(base), i.T, v.T), base.Ty)
+		}
 		return f.name("arr", Val{T: fmt.Sprintf("(store %s %s %s)", base.T, i.T, v.T), Ty: base.Ty})
 	case *types.Slice:
 		so := f.c.sorts.SortOf(base.Ty)
@@ -577,8 +582,25 @@ func (f *Frame) assignedIn(nodes ...ast.Node) []types.Object {
 					add(x.Value)
 				}
 			case *ast.CallExpr:
-				// receivers and pointer/slice/map arguments may be mutated by the callee
-				if sel, ok := x.Fun.(*ast.SelectorExpr); ok {
+				// receivers and pointer/slice/map arguments may be mutated by the callee: consult its
+				// contract (modifies / pure) or scan its body; unknown callees mutate everything
+				if tv, ok := f.info.Types[x.Fun]; ok && tv.IsType() {
+					return true
+				}
+				if id, ok := ast.Unparen(x.Fun).(*ast.Ident); ok {
+					if b, ok := f.info.ObjectOf(id).(*types.Builtin); ok {
+						switch b.Name() {
+						case "copy", "delete", "clear":
+							add(x.Args[0])
+						}
+						return true
+					}
+				}
+				mi := mutInfo{all: true}
+				if callee, _ := typeutil.Callee(f.info, x).(*types.Func); callee != nil {
+					mi = f.calleeMutates(callee, 0, map[*types.Func]bool{})
+				}
+				if sel, ok := x.Fun.(*ast.SelectorExpr); ok && (mi.recv || mi.all) {
 					if s := f.info.Selections[sel]; s != nil && s.Kind() == types.MethodVal {
 						if sig, ok := s.Obj().Type().(*types.Signature); ok && sig.Recv() != nil {
 							if _, isPtr := sig.Recv().Type().(*types.Pointer); isPtr {
@@ -589,7 +611,17 @@ func (f *Frame) assignedIn(nodes ...ast.Node) []types.Object {
 						}
 					}
 				}
-				for _, a := range x.Args {
+				for i, a := range x.Args {
+					hit := mi.all
+					if !hit && i < len(mi.params) {
+						hit = mi.params[i]
+					}
+					if !hit && len(mi.params) > 0 && i >= len(mi.params) {
+						hit = mi.params[len(mi.params)-1]
+					}
+					if !hit {
+						continue
+					}
 					if tv, ok := f.info.Types[a]; ok && tv.Type != nil {
 						switch tv.Type.Underlying().(type) {
 						case *types.Pointer, *types.Slice, *types.Map:
